@@ -1394,7 +1394,7 @@ func genL3(r *vlib.R, emit func(string)) int {
 	qmin := vlib.Pick(r, []int{0, 0, 0, 1, 2, 3, 5})
 	e(fmt.Sprintf("l3 new alg=%d zone=%s isigned=%s zsame=%s sub=%s same=%s keys=%s anchors=%s qmin=%d", alg, zone, isigned, zsame, subk, same, keys, anchors, qmin))
 
-	qs := []sysQ{{"www.zone.test.", "A"}, {"alias.zone.test.", "A"}, {"xalias.zone.test.", "A"}, {"ialias.zone.test.", "A"},
+	qs := []sysQ{{"www.zone.test.", "A"}, {"alias.zone.test.", "A"}, {"xalias.zone.test.", "A"}, {"ialias.zone.test.", "A"}, {"lalias.zone.test.", "A"},
 		{"x.w.zone.test.", "TXT"}, {"a.b.w.zone.test.", "TXT"}, {"real.w.zone.test.", "TXT"}, {"real.w.zone.test.", "TXT"}, {"txt.zone.test.", "TXT"}, {"nope.zone.test.", "A"},
 		{"www.zone.test.", "AAAA"}, {"deep.a.b.zone.test.", "A"}, {"mx.zone.test.", "MX"},
 		{"www.d.zone.test.", "A"}, {"victim.d.zone.test.", "A"}, {"www.d.zone.test.", "A"}, {"nope.d.zone.test.", "A"}, {"www.d.zone.test.", "AAAA"},
@@ -1541,6 +1541,69 @@ func genL3(r *vlib.R, emit func(string)) int {
 		for i := 0; i < 3+r.Intn(4); i++ {
 			q := vlib.Pick(r, qs)
 			e(fmt.Sprintf("l3 q %s %s %s", q.name, q.typ, vlib.Pick(r, []string{"d", "d", "-", "da", "n", "dw", "dc"})))
+		}
+	}
+	if zone == "s" && r.Chance(1, 8) {
+		// the CD partitions of the cache: checking-disabled questions for the key material of the zones on the path
+		// are answered (and cached) unvalidated while a script pads / replaces it; the validating questions that
+		// follow must still rest on keys the validator authenticated itself
+		parent := "tld"
+		if zsame == "t" {
+			parent = "zone"
+		}
+		switch r.Intn(6) {
+		case 0, 1:
+			e(fmt.Sprintf("l3 tamper zone padkey %s all", vlib.Pick(r, []string{"data", "data", "deny"})))
+		case 2:
+			e(fmt.Sprintf("l3 tamper %s padkey denyds all", parent))
+			e(fmt.Sprintf("l3 tamper zone %s - data", vlib.Pick(r, []string{"forge-answer", "dropsigs"})))
+		case 3:
+			e(fmt.Sprintf("l3 tamper zone evilkey %s all", vlib.Pick(r, []string{"plain", "keepsig", "replace"})))
+		case 4:
+			e(fmt.Sprintf("l3 tamper %s %s - all", parent, vlib.Pick(r, []string{"dropds", "ds-to-nssig", "ds-to-nsec", "ds-replay-nsec"})))
+			e("l3 tamper zone forge-answer - data")
+		case 5:
+			e("l3 tamper zone dropsigs - all")
+		}
+		prime := []sysQ{{"zone.test.", "DNSKEY"}, {"zone.test.", "DS"}, {"test.", "DNSKEY"}, {"www.zone.test.", "A"}}
+		for i := 0; i < 2+r.Intn(3); i++ {
+			q := prime[i%len(prime)]
+			if r.Chance(1, 4) {
+				q = vlib.Pick(r, prime)
+			}
+			e(fmt.Sprintf("l3 q %s %s %s", q.name, q.typ, vlib.Pick(r, []string{"dc", "dc", "c", "dcw", "cw", "dca"})))
+		}
+		for i := 0; i < 3+r.Intn(3); i++ {
+			q := vlib.Pick(r, []sysQ{{"www.zone.test.", "A"}, {"txt.zone.test.", "TXT"}, {"mx.zone.test.", "MX"}, {"alias.zone.test.", "A"},
+				{"zone.test.", "DNSKEY"}, {"zone.test.", "DS"}, {"nope.zone.test.", "A"}, {"x.w.zone.test.", "TXT"}})
+			e(fmt.Sprintf("l3 q %s %s %s", q.name, q.typ, vlib.Pick(r, []string{"d", "d", "da", "dw", "-", "a"})))
+		}
+	}
+	if r.Chance(1, 8) {
+		// an alias answered from the cache whose target has to be fetched again — and that fetch fails: the alias
+		// outlives the record it points to, the target's zone starts failing validation, the clock passes the TTL
+		al := vlib.Pick(r, []string{"lalias.zone.test.", "lalias.zone.test.", "lalias.zone.test.", "xalias.zone.test."})
+		e(fmt.Sprintf("l3 q %s A %s", al, vlib.Pick(r, []string{"d", "d", "-", "dw", "n"})))
+		k := vlib.Pick(r, []tk{{"flipsig", "-", "all"}, {"flipsig", "-", "data"}, {"expired", "-", "all"}, {"dropsigs", "-", "all"}, {"flipdata", "-", "data"},
+			{"rcode", "5", "data"}, {"rcode", "2", "data"}, {"signer", "evilzone.test.", "data"}, {"sigfield", "alg16", "data"}, {"resign-expired", "-", "data"}})
+		e(fmt.Sprintf("l3 tamper other %s %s %s", k.kind, k.arg, k.scope))
+		e(fmt.Sprintf("l3 advance %d", vlib.Pick(r, []int{25, 40, 120, 400})))
+		for i := 0; i < 2+r.Intn(3); i++ {
+			e(fmt.Sprintf("l3 q %s A %s", al, vlib.Pick(r, []string{"d", "d", "-", "dw", "w", "n", "nw", "da", "dt", "dh"})))
+		}
+	}
+	if r.Chance(1, 7) {
+		// names below a denied name: once a validated NXDOMAIN is cached, its descendants are answered from it
+		// (RFC 8020) — on the byte path too, and toward clients that asked for no DNSSEC at all
+		base := vlib.Pick(r, []string{"nope.zone.test.", "nope.zone.test.", "nope.other.test.", "nope.a.b.zone.test.", "nope.d.zone.test.", "nonexistent-tld."})
+		if subk != "-" && r.Chance(1, 4) {
+			base = "nope.sub.zone.test."
+		}
+		e(fmt.Sprintf("l3 q %s A %s", base, vlib.Pick(r, []string{"d", "d", "-", "da", "dw", "n"})))
+		for i := 0; i < 3+r.Intn(4); i++ {
+			lbl := vlib.Pick(r, []string{"a.", "b.", "x.y.", "c.", "www.", "p.q.r."})
+			e(fmt.Sprintf("l3 q %s%s %s %s", lbl, base, vlib.Pick(r, []string{"A", "A", "AAAA", "TXT", "MX"}),
+				vlib.Pick(r, []string{"w", "w", "nw", "nw", "aw", "cw", "dw", "tw", "ntw", "-", "n", "h", "d", "dcw"})))
 		}
 	}
 	ask(2 + r.Intn(4))
